@@ -320,10 +320,18 @@ pub fn ref_bbox(ty: Ty, parts: &[Part]) -> Option<BBox> {
 /// domain (there the floating-point classification has no exact meaning to test against).
 /// Positive = clockwise (ESRI outer).
 pub fn exact_area2(pts: &[V]) -> Option<i128> {
+    // scaling every coordinate by a power of two scales every intermediate value of the f64 sum exactly (no underflow at
+    // these magnitudes), so a ring on a finer grid close to the origin is decided on its scaled-up image; only the sign
+    // and the zero-ness of the result are used by the callers
+    [0i32, 16].iter().find_map(|sh| exact_area2_at(pts, *sh))
+}
+
+fn exact_area2_at(pts: &[V], shift: i32) -> Option<i128> {
     const LIM: i128 = 1i128 << 52;
+    let k = 2f64.powi(shift);
     let mut q = Vec::with_capacity(pts.len());
     for p in pts {
-        q.push((dyadic(p[0])?, dyadic(p[1])?));
+        q.push((dyadic(F::of(p[0].v() * k))?, dyadic(F::of(p[1].v() * k))?));
     }
     let mut s: i128 = 0;
     for w in q.windows(2) {
